@@ -19,6 +19,8 @@ def supported(op, emb):
         return False          # float detour is inherent to these two; judged on small values only
     if op == "sumsq" and e.kind in "bu":
         return False
+    if emb.endswith("lo") and op in ("sum", "sumsq", "mean"):
+        return False          # bottom-of-range embeddings: selection-type kernels and counts only
     return True
 
 
